@@ -241,12 +241,11 @@ Proof.
   - apply RT_u8_bind. tagsimp. eapply RT_bind_nil. apply RT_u64; auto. apply RT_ret.
   - bsplit. apply RT_u8_bind. tagsimp. unfold de_usize, ser_usize.
     eapply RT_bind. { apply RT_u64. eapply fits_u64; eauto. lia. }
-    replace (c_validate c && (len_N v =? 0)) with false.
-    2:{ symmetry. destruct (c_validate c) eqn:E; auto. specialize (Hv eq_refl). cbn [wfs_biguint] in Hv.
-        cbn [andb]. destruct (len_N v =? 0); auto. }
     eapply RT_bind_eq with (s1 := []); [reflexivity | apply RT_alloc; apply fits_len; auto | ].
     eapply RT_bind_nil. { apply RT_list. intros; apply RT_u64. eapply forallb_In; eauto. intros; apply ser_u64_nonempty. }
-    apply RT_ret.
+    replace (c_validate c && (len_N v =? 0)) with false. apply RT_ret.
+    symmetry. destruct (c_validate c) eqn:E; auto. specialize (Hv eq_refl). cbn [wfs_biguint] in Hv.
+    cbn [andb]. destruct (len_N v =? 0); auto.
 Qed.
 
 Lemma RT_sign : forall s, RT de_sign (ser_sign s) s.
